@@ -320,3 +320,90 @@ func manyWebhooks(r *ev.Run, caseID string, n int) {
 	r.Count("events_delivered_to_many_webhooks", int64(2*n))
 	r.Case(fmt.Sprintf("many-webhooks|n=%d", n), true)
 }
+
+// hangAndHealthy: two webhooks on one host. The endpoint of one accepts every delivery and does not answer (until the end
+// of the case); the other answers at once and comes first in the list. "A failing or slow channel neither blocks ingestion nor
+// suppresses delivery on the other channels": the healthy one gets one event for every stored header, however many
+// deliveries to its neighbour are hanging.
+func hangAndHealthy(r *ev.Run, caseID string, i int) {
+	rng := r.Rand(caseID)
+	var mu sync.Mutex
+	okPosts := map[string]int{}
+	var hanging atomic.Int64
+	release := make(chan struct{})
+	srv := httptest.NewUnstartedServer(http.HandlerFunc(func(w http.ResponseWriter, q *http.Request) {
+		body, _ := io.ReadAll(q.Body)
+		if q.URL.Path == "/z-hang" {
+			hanging.Add(1)
+			<-release
+			w.WriteHeader(http.StatusOK)
+			return
+		}
+		if evj, err := parseEvent(body); err == nil && evj.Header != nil {
+			mu.Lock()
+			okPosts[evj.Header.Hash]++
+			mu.Unlock()
+		}
+		w.WriteHeader(http.StatusOK)
+	}))
+	srv.Start()
+	defer srv.Close()
+	defer close(release)
+	st, err := rig.New(rig.Options{Dir: r.Scratch, Name: "c11-hang.db", NoHTTP: true,
+		AfterSvc: func(sv *service.Services, _ *config.AppConfig) { sv.Notifier.AddChannel(sv.Webhooks) }})
+	if err != nil {
+		r.Violate("harness|rig", err.Error(), caseID, nil)
+		return
+	}
+	defer st.Destroy()
+	for _, p := range []string{"/a-ok", "/z-hang"} { // the healthy one is registered (and listed) first
+		if _, err := st.Svc.Webhooks.CreateWebhook("BEARER", "", "c11-hang", srv.URL+p); err != nil {
+			r.Violate("harness|create-webhook", err.Error(), caseID, nil)
+			return
+		}
+	}
+	n := 8 + i%5
+	prev := rig.Genesis().HashOf()
+	var hashes []string
+	for k := 0; k < n; k++ {
+		h := refmodel.Hdr{Prev: prev, Bits: gen.BitsNormal}
+		gen.Fields(rng, &h, false, k+1)
+		if res := st.Add(h); res.Code() != "stored" {
+			r.Inconclusive(caseID, "a header was not stored")
+			return
+		}
+		prev = h.HashOf()
+		hashes = append(hashes, h.HashOf().String())
+	}
+	// the healthy webhook is served before its neighbour in every delivery: wait (bounded) until it has been called for the
+	// last header, or until as many deliveries hang as headers were stored (then nothing more can arrive)
+	got := func() int {
+		mu.Lock()
+		defer mu.Unlock()
+		c := 0
+		for _, h := range hashes {
+			if okPosts[h] > 0 {
+				c++
+			}
+		}
+		return c
+	}
+	for w := 0; w < 400 && got() < n; w++ {
+		time.Sleep(50 * time.Millisecond)
+	}
+	mu.Lock()
+	wrong := 0
+	for _, h := range hashes {
+		if okPosts[h] != 1 {
+			wrong++
+		}
+	}
+	mu.Unlock()
+	r.Count("headers_stored_next_to_a_hanging_webhook", int64(n))
+	if wrong > 0 {
+		r.Violate("hanging-webhook|healthy-neighbour-starved", fmt.Sprintf("two webhooks on one host, the first answers at once, the second never: of %d stored headers %d did not reach the first exactly once (%d deliveries to the second are hanging)", n, wrong, hanging.Load()), caseID,
+			map[string]any{"stored_headers": n, "hanging_deliveries": hanging.Load()})
+		return
+	}
+	r.Case("hang-and-healthy", true)
+}
